@@ -360,7 +360,8 @@ func (dcc *dataConditionsContainer) finalize(r *Reader, queryPartIndex int, prev
 					content := ""
 					if v.SubQuery == "" {
 						//TODO: maybe extract the regex for this variable
-						content = ".*"
+						// the value of the variable may contain any byte, also a newline
+						content = "(?s:.*)"
 						isPrecondition = true
 					} else {
 						psq := possibleSubQueries[v.SubQuery]
